@@ -518,6 +518,34 @@ def _changed_guard(cx, b, tail, head, blocks):
         if not fresh:
             continue
         if {(s.cls, s.root) for s in la} & {(s.cls, s.root) for s in ra}:
+            # ... and the loop goes round WITH the newer value: the variable that held the older read is assigned from the re-read on the
+            # way to the back edge. Otherwise "they differ" stays true for ever and the loop spins until somebody else changes the word
+            # back (the reader finished one transaction and is parked in the next).
+            def root(op):
+                n = 0
+                while op is not None and op.get('k') in ('copy', 'move') and not op['place']['proj'] and n < 8:
+                    l = op['place']['local']
+                    ds = [x for x in b.assigns().get(l, ()) if not x[4]]
+                    if len(ds) == 1 and ds[0][2] == 'stmt' and ds[0][3]['k'] == 'use' and ds[0][3]['op'].get('k') in ('copy', 'move') and not ds[0][3]['op']['place']['proj']:
+                        op = ds[0][3]['op']
+                        n += 1
+                        continue
+                    return l
+                return None
+            fresh_bbs = {s.bb for s in fresh}
+            carried = False
+            for side in (rv['l'], rv['r']):
+                L = root(side)
+                if L is None:
+                    continue
+                for (dbb, di, kind, drv, proj) in b.assigns().get(L, ()):
+                    if proj or dbb not in blocks or kind != 'stmt' or not b.dominates(dbb, tail):
+                        continue
+                    src = b.origins(drv.get('op')) if drv['k'] in ('use', 'cast') else set()
+                    if any(o[0] == 'call' and o[1] in fresh_bbs for o in src):
+                        carried = True
+            if not carried:
+                continue
             return 'retries only because two reads of %s differ (re-read at %s)' % (fresh[0].cls, fresh[0].loc)
     return None
 
